@@ -394,6 +394,62 @@ def run(ctx):
         ctx.ob('R05.7', 'the guard undoes exactly what it did (-1 on creation, +1 on drop)', ops == [('fetch_add', '1_isize'), ('fetch_sub', '1_isize')] and
                any(n_ == gd[0].name and o == 'fetch_add' for n_, o, a in subs) if gd else False, '', str(subs), construct='getguard-symmetry')
 
+    # ---- R05.8 status(): which quantity, with which sign, reaches which field (sign-domain abstract interpretation) -----
+    from . import signeval
+    st = r.STATUS
+    ctx.saw(st)
+    san = prog.an(st)
+    def classify_field(p):
+        lf = p.last_field()
+        if lf and lf[1] == 'max_size' and lf[0].endswith('PoolConfig'):
+            return ('in', 'max_size')
+        return None
+    def classify_call(t, env):
+        names = t.callee_names()
+        for fld, v in ((r.SIZE, ('in', 'size')), (r.AVAIL, ('a', 1))):
+            if any(x[0].term is t for x in r.atomic_calls(st, fld)) and any(n.endswith('::load') for n in names):
+                return v
+        a0 = None
+        if t.args and t.args[0].kind != 'const' and not t.args[0].place.proj:
+            a0 = env.get(t.args[0].place.local)
+        meth = sorted(names)[0].split('::')[-1] if names else ''
+        if meth == 'try_from' and a0 is not None and a0[0] == 'a':
+            return ('tryfrom', a0)
+        if meth in ('unwrap_or', 'unwrap_or_default') and a0 is not None and a0[0] == 'tryfrom':
+            inner = a0[1]
+            other = ('c', 0)
+            if meth == 'unwrap_or' and len(t.args) > 1 and t.args[1].kind == 'const':
+                other = ('c', int(str(t.args[1].const.get('v', '0')).split('_')[0]))
+            return inner if sign_now[0] * inner[1] >= 0 else other
+        if meth in ('max', 'min') and a0 is not None and a0[0] == 'a' and len(t.args) > 1 and t.args[1].kind == 'const':
+            c_ = int(str(t.args[1].const.get('v', '0')).split('_')[0])
+            s_ = sign_now[0] * a0[1]
+            if c_ == 0:
+                return (a0 if s_ > 0 else ('c', 0)) if meth == 'max' else (a0 if s_ < 0 else ('c', 0))
+        if meth in ('unsigned_abs', 'abs', 'wrapping_abs') and a0 is not None and a0[0] == 'a':
+            return ('a', a0[1] if sign_now[0] * a0[1] >= 0 else -a0[1])
+        if meth in ('wrapping_neg', 'saturating_neg', 'neg') and a0 is not None and a0[0] == 'a':
+            return ('a', -a0[1])
+        if meth in ('deref',) or 'Ordering' in ''.join(names):
+            return ('k', 'plumbing')
+        return None
+    sign_now = [0]
+    want = {1: {'available': ('a', 1), 'waiting': ('c', 0)}, -1: {'available': ('c', 0), 'waiting': ('a', -1)}, 0: {'available': ('c', 0), 'waiting': ('c', 0)}}
+    for sg in (1, -1, 0):
+        sign_now[0] = sg
+        label = {1: 'idle objects (available > 0)', -1: 'callers waiting (available < 0)', 0: 'neither (available == 0)'}[sg]
+        try:
+            out = signeval.run(st, san, sg, classify_call, classify_field)
+        except signeval.Unknown as e:
+            ctx.undecide('R05.8', 'status(): cannot evaluate the case %s: %s' % (label, e)); continue
+        def same(v, w):
+            if sg == 0 and v is not None and v[0] == 'a':
+                v = ('c', 0)
+            return v == w
+        ok = same(out.get('available'), want[sg]['available']) and same(out.get('waiting'), want[sg]['waiting']) and out.get('size') == ('in', 'size') and out.get('max_size') == ('in', 'max_size')
+        ctx.ob('R05.8', 'status() with %s reports max_size, size, available, waiting from the right quantities' % label, ok, ctx.where(st),
+               'got %s (a = the available counter)' % {k: out.get(k) for k in ('max_size', 'size', 'available', 'waiting')} if not ok else '', construct='ustatus:%d' % sg, sites=[str(out)])
+
     # ---- R05.9 conservation on every path of every entry point (effect ledger, dprules/ledger.py) ---------------
     from .ledger_rules import uledger_obligations
     uledger_obligations(ctx, r, 'R05.9')
